@@ -36,7 +36,7 @@ def payload_variant(case, which, rnd):
 def other_cases(rnd, n, prefix="N"):
     """where / fill_null / make_nullable / isin / astype / getitem on nullable data."""
     out = []
-    kinds = ["where", "where_nullcond", "fill_null", "make_nullable", "isin", "astype", "getitem", "mean", "sort", "matmul", "minmax", "clip"]
+    kinds = ["where", "where_nullcond", "fill_null", "make_nullable", "isin", "astype", "getitem", "mean", "sort", "matmul", "minmax", "clip", "fill_inplace"]
     i = 0
     while len(out) < n:
         k = kinds[i % len(kinds)]
@@ -64,6 +64,15 @@ def other_cases(rnd, n, prefix="N"):
             fill = {"bool": "True", "utf8": "'f'"}.get(b, "3")
             out.append(families.mkcase(cid, {"x": x}, f"out = nda.fill_null(x, {fill})",
                                        f"out = np.where(mask(x), np.asarray({fill}, dtype=data(x).dtype), data(x))", meta, rnd))
+        elif k == "fill_inplace":
+            # the usual in-place idiom: overwrite the nulls of a computed result through its own null field
+            if b in ("bool", "utf8"):
+                continue
+            expr, nexpr = rnd.choice([("x + 1", "data(x) + 1"), ("x * 2", "data(x) * 2"), ("ndx.abs(x)", "np.abs(data(x))"), ("x - x", "data(x) - data(x)"),
+                                      ("ndx.where(x == x, x, x)", "data(x)"), ("x.copy()", "data(x)")])
+            form = rnd.choice(["y = {e}; y[y.null] = 3; out = y", "y = {e}; m_ = y.null; y[m_] = 3; out = [y, y + 0]"])
+            orc = f"v_ = ({nexpr}).astype(data(x).dtype); r_ = mk(np.where(mask(x), np.asarray(3, dtype=v_.dtype), v_), np.zeros(v_.shape, dtype=bool)); out = r_" + ("" if "out = y" in form and "[y," not in form else "; out = [r_, r_]")
+            out.append(families.mkcase(cid, {"x": x}, form.format(e=expr), orc, meta, rnd, check_dtype=False, erase_masked=False))
         elif k == "make_nullable":
             v = ops.tensor(rnd, b, sh, "small")
             msh = [1 if rnd.random() < 0.4 else s for s in sh][rnd.randint(0, len(sh)):]
